@@ -306,13 +306,22 @@ Proof. intros [|f fl]; unfold region_rows; [reflexivity|]. now rewrite map_lengt
 
 Lemma stop_unfold : forall c s, started s = true ->
   stop c s =
-  let '(s2, raised) := refresh c (stop_s1 c s) in
+  let '(sr, raised) := refresh c (stop_s1 c s) in
+  let s2 := after_refresh c s sr in
   let s3 := if raised then s2 else emit s2 [NL] in
   let s4 := emit (set_flags s3 false (pred (hooks s3)) false) cursor_on in
   if raised then (s4, true)
-  else if c_transient c then (settle (emit s4 (restore_cursor (shape s4))) false, false)
-  else (settle s4 true, false).
+  else if c_transient c then (forget c (settle (emit s4 (restore_cursor (shape s4))) false), false)
+  else (forget c (settle s4 true), false).
 Proof. intros c s Hs. unfold stop, stop_s1. rewrite Hs. reflexivity. Qed.
+
+Lemma SInv_forget : forall c s, started s = false -> SInv c s -> SInv c (forget c s).
+Proof.
+  intros c s Hs [A B C D E]. unfold forget. destruct (c_resets_shape c); [|constructor; assumption].
+  constructor; unfold T, P_rows, R_rows, shape_ok in *; cbn [forget_shape out g_printed g_shown g_live started hooks shape];
+    try assumption.
+  intros X. congruence.
+Qed.
 
 Lemma stop_inv : forall c s, nofault c -> SInv c s -> op_ok c s Stop = true ->
   snd (stop c s) = false /\ SInv c (fst (stop c s)).
@@ -332,8 +341,20 @@ Proof.
   { unfold T, P_rows, R_rows. rewrite X1, X2, X3, X4. exact A. }
   assert (D1 : shape_ok s1) by (unfold shape_ok; rewrite X3, X4, X6; exact D).
   pose proof (refresh_draw c s1 Nf ltac:(lia) D1 A1 Hl) as R. cbv zeta in R.
-  destruct (refresh c s1) as [s2 raised]. cbn [fst snd] in R.
+  destruct (refresh c s1) as [sr raised]. cbn [fst snd] in R.
   destruct R as (R1 & R2 & R3 & R4 & R5 & R6 & (F1 & F2 & F3) & R7 & R8). subst raised.
+  (* the inner finally only touches vertical_overflow *)
+  set (s2 := after_refresh c s sr).
+  assert (Y : out s2 = out sr /\ g_printed s2 = g_printed sr /\ g_shown s2 = g_shown sr /\ g_live s2 = g_live sr
+              /\ hooks s2 = hooks sr /\ shape s2 = shape sr).
+  { subst s2. unfold after_refresh. destruct (c_restores_ovf c); repeat split. }
+  destruct Y as (Y1 & Y2 & Y3 & Y4 & Y5 & Y6).
+  unfold T, P_rows, R_rows, shape_ok in R2, R3, R4, R5.
+  rewrite <- Y1, <- Y2, <- Y4, <- Y3 in R2. rewrite <- Y1 in R3. rewrite <- Y1, <- Y4, <- Y3 in R4.
+  rewrite <- Y4, <- Y3, <- Y6 in R5.
+  rewrite <- Y4 in R6. rewrite <- Y3 in R7. rewrite <- Y2 in R8. rewrite <- Y5 in F2.
+  fold (T c s2) in R2, R3, R4. fold (P_rows s2) in R2. fold (R_rows s2) in R2, R4. fold (shape_ok s2) in R5.
+  fold (T c s1) in R3.
   set (fl := fst (frame_lines c (pre_refresh c s1))) in *.
   assert (HR2 : R_rows s2 = region_rows fl) by (unfold R_rows; now rewrite R6, R7).
   (* console.line() *)
@@ -351,6 +372,7 @@ Proof.
     assert (Hvr : (length fl <= lf_vr (Hn c) (vr (T c s2)))%nat).
     { apply lf_room; [exact Hcap|]. rewrite <- region_len'. rewrite <- HR2. apply R4.
       apply Nat.le_trans with (S (length fl)); [apply Nat.le_succ_diag_r|exact Hcap]. }
+    apply SInv_forget; [reflexivity|].
     constructor; unfold T, P_rows, R_rows, shape_ok;
       cbn [settle emit set_flags out g_printed g_shown g_live started hooks shape];
       try (intros; discriminate); try reflexivity.
@@ -378,6 +400,7 @@ Proof.
         rewrite interp_app in Q2. rewrite Q2. exact K2.
     + rewrite F2, X5, C. reflexivity.
   - (* the frame stays: it becomes printed output *)
+    apply SInv_forget; [reflexivity|].
     constructor; unfold T, P_rows, R_rows, shape_ok;
       cbn [settle emit set_flags out g_printed g_shown g_live started hooks shape];
       try (intros; discriminate); try reflexivity.
@@ -503,14 +526,14 @@ Qed.
 
 Example ops_ok_nonvacuous :
   (* frames that grow, shrink, become empty and exceed the page; ellipsis; prints and a log *)
-  let c := mkCfg false false OEllipsis 12 3 None None true false in
+  let c := mkCfg false false OEllipsis 12 3 None None true false false false false in
   ops_ok c (st0 c (w_lines 2))
     [Print (w_lines 1); Start; Refresh; Print (w_lines 4); Update (w_lines 7) true; Log (w_lines 1);
      Update [] false; Print (w_lines 1); Update (w_lines 1) true; Start; Stop; Print (w_lines 1)] = true.
 Proof. vm_compute. reflexivity. Qed.
 
 Example ops_ok_nonvacuous_progress :
-  let c := mkCfg true true OEllipsis 12 4 None None true false in
+  let c := mkCfg true true OEllipsis 12 4 None None true false false false false in
   ops_ok c (st0 c (w_lines 2))
     [Start; Print (w_lines 5); Update (w_lines 3) true; Update [] true; Log (w_lines 1); Stop] = true.
 Proof. vm_compute. reflexivity. Qed.
